@@ -540,8 +540,12 @@ fn exec_fault(conv: &Conversation, at: u32, kind: u8, ex: &mut Exec) {
         }
         return;
     }
-    if !(o.out.len() <= base.out.len() && base.out[..o.out.len()] == o.out[..]) {
-        let common = o.out.iter().zip(&base.out).take_while(|(a, b)| a == b).count();
+    // (the greeting is left out of the comparison: its connection id and salt may differ from one
+    // connection to the next)
+    let skip = split_packets(&base.out).0.first().map(|p| p.start + p.len).unwrap_or(0);
+    let same_prefix = o.out.len() <= base.out.len() && (o.out.len() <= skip || base.out[skip..o.out.len()] == o.out[skip..]);
+    if !same_prefix {
+        let common = skip + o.out.iter().zip(&base.out).skip(skip).take_while(|(a, b)| a == b).count();
         ex.fail(
             "c04-bytes-after-failed-write",
             format!(
